@@ -482,7 +482,10 @@ fn exec_op(op: &Op, t: usize, eng: &GraphEngine, sh: &Mutex<Shared>, ctx: &RunCt
                 ctx.probe("batch_create_nodes_100_or_more");
             }
             guarded(&mut || {
-                let inputs: Vec<NodeInput> = (0..*count).map(|_| NodeInput::new(vec!["N".to_string()], props(hostile, 0))).collect();
+                // both ways a caller can build an input: the constructor and the (public) fields
+                let inputs: Vec<NodeInput> = (0..*count)
+                    .map(|j| if j % 2 == 0 { NodeInput::new(vec!["N".to_string()], props(hostile, 0)) } else { NodeInput { labels: vec!["N".to_string()], properties: props(hostile, 0) } })
+                    .collect();
                 match eng.batch_create_nodes(inputs) {
                     Ok(res) => {
                         let mut g = lock(sh);
@@ -510,7 +513,11 @@ fn exec_op(op: &Op, t: usize, eng: &GraphEngine, sh: &Mutex<Shared>, ctx: &RunCt
                         continue;
                     };
                     specs.push((fi, ti, s.directed));
-                    inputs.push(EdgeInput::new(g.nodes[fi].id, g.nodes[ti].id, format!("T{}", s.ty % 2), props(hostile, 0), s.directed));
+                    if inputs.len() % 2 == 0 {
+                        inputs.push(EdgeInput::new(g.nodes[fi].id, g.nodes[ti].id, format!("T{}", s.ty % 2), props(hostile, 0), s.directed));
+                    } else {
+                        inputs.push(EdgeInput { from: g.nodes[fi].id, to: g.nodes[ti].id, edge_type: format!("T{}", s.ty % 2), properties: props(hostile, 0), directed: s.directed });
+                    }
                 }
                 if specs.is_empty() {
                     return;
